@@ -2,6 +2,7 @@ package container
 
 import (
 	"context"
+	"errors"
 	"fmt"
 	"io"
 	"os"
@@ -290,6 +291,16 @@ func (c *container) sendLoop() {
 			}
 			verifPoint(vpHostSendPre, int(cmd.Cmd.Cmd))
 			if err := c.socket.SendMsg(cmd.Cmd, cmd.Msg); err != nil {
+				if errors.Is(err, errPayloadTooLarge) {
+					// a request that does not fit one message was not sent: it fails that call (answered here
+					// in the container's place), the transport is intact
+					select {
+					case c.recvCh <- recvReply{Reply: reply{Error: &errorReply{Msg: err.Error()}}}:
+						continue
+					case <-c.done:
+						return
+					}
+				}
 				c.socketError(err)
 				return
 			}
